@@ -336,10 +336,6 @@ def itemOK (it : Item) : Bool := it.2.all (fun e => decide (0 ≤ e.2)) && nodup
 
 def dedupInts (xs : List Int) : List Int := xs.foldl (fun acc x => if acc.contains x then acc else acc ++ [x]) []
 
-def mkGroups (pod node : Int) (items : List (Int × Item)) : List Group :=
-  (dedupInts (items.map (·.1))).map fun ty =>
-    { node := node, ty := ty, pod := pod, items := (items.filter (fun x => x.1 = ty)).map (·.2) }
-
 /-- `DeviceAllocations[type]` per type (first-occurrence order of the types), each allocation with
     its bus-id list -/
 def mkVGroups (pod node : Int) (items : List ((Int × Item) × List Int)) : List VGroup :=
